@@ -23,8 +23,10 @@ LEVEL = ('decides the plumbing a proof depends on: every reason that is used is 
          ' is_initial_bound agree on which trail entries need no explanation (P13 TABLE); the '
          'constraint tag given to post / implied_by reaches every posting call (P14 TAINT); the '
          'optimality conclusion is stated on the scaled objective (P15 = C04-O9). Also runs the KERNEL'
-         ' BUNDLE (PK<n>). Does not decide that a logged inference follows from its constraint or that'
-         ' a nogood is derivable — that needs a proof checker and runs')
+         ' BUNDLE (PK<n>). Root propagations are logged before the conflict of the same call is '
+         'prepared (P16); every logged step is written with a fresh id (P17 = C19-K9). Does not decide'
+         ' that a logged inference follows from its constraint or that a nogood is derivable — that '
+         'needs a proof checker and runs')
 TECHNIQUE = "static analysis: must-pass, typestate with a proof-completed bit, table recovery, populate/lookup guard agreement over rustc MIR"
 
 PROOF_DONE = 4     # bit of the X component: complete_proof / finalize_proof + empty nogood logged
@@ -445,6 +447,18 @@ def p10(led, rid, ctx):
             R = resolver(f)
             e = R.operand(c.args[2])
             sel = [x.a.name for x in e.walk() if x.k == "call" and x.a.name in SELECTING]
+            # a helper of this crate in the chain that selects from what it is given
+            for x in e.walk():
+                if x.k != "call":
+                    continue
+                for h in lib.callees(x.a):
+                    if "/pumpkin-solver/src/" not in h.file and not h.file.startswith("pumpkin-solver/src/"):
+                        continue
+                    if h.name in ("get_tag", "log_inference") or "/proof/" in h.file:
+                        continue
+                    inner = [y.name for g in h.with_closures() for y in g.calls if y.name in SELECTING]
+                    if inner and any(k in (h.rec.get("ret") or "") for k in ("Vec<", "PropositionalConjunction", "Iterator", "[")):
+                        sel.append("%s (via %s)" % (inner[0], h.name))
             # a premise vector that is trimmed in place before it is logged
             trimmed = []
             for x in e.walk():
@@ -532,6 +546,27 @@ def p12(led, rid, ctx):
                           "the inference it just logged depends on a unit nogood the proof does not reference "
                           "(with hints, the learned nogood is not derivable from its hints)" % who)
     led.floor(rid, "root-level skips in conflict analysis", n, 2)
+
+
+def p16(led, rid, ctx):
+    """ORDER in the propagation loop: the propagations a propagator made at the root are logged
+    (log_root_propagation_to_proof) before the conflict it ended with is prepared: preparing the
+    conflict takes the emptying change off the trail and stores the conflict nogood, so a batch that
+    is logged afterwards is written after — not before — what depends on it"""
+    lib = ctx.lib
+    f = lib.method("ConstraintSatisfactionSolver", "propagate")
+    cfg = f.cfg
+    logs = f.calls_named("log_root_propagation_to_proof")
+    preps = f.calls_named("prepare_for_conflict_resolution")
+    if not logs or not preps:
+        raise AnchorMissing("log_root_propagation_to_proof / prepare_for_conflict_resolution in propagate")
+    heads = list(cfg.loop_heads())
+    for pc in preps:
+        late = [l for l in logs if cfg.reaches(pc.bb, [l.bb], avoid=heads, strict=True)]
+        led.check(not late, rid, "log-root-batch-before-conflict", pc.span, "no log call is reachable from the preparation within one iteration",
+                  "propagate prepares the conflict (removing the emptying trail entry) and logs the root "
+                  "propagations of that propagator call afterwards: the inference for the conflict is then not the "
+                  "last step before the empty nogood, and the unit nogoods logged in between are not derivable")
 
 
 def p13(led, rid, ctx):
@@ -671,6 +706,9 @@ def p14(led, rid, ctx):
 def run(ctx, led):
     from . import C04 as _C04
     run_rule(led, "P15", "the optimality conclusion of the proof is stated on the scaled objective (shared with C04-O9)", _C04.o9, ctx)
+    from . import C19 as _C19
+    run_rule(led, "P17", "every step the solver logs is written, with a fresh id (shared with C19-K9)", _C19.k9, ctx)
+    run_rule(led, "P16", "ORDER: a propagator's root propagations are logged before its conflict is prepared", p16, ctx)
     run_rule(led, "P14", "TAINT: the constraint tag given to post / implied_by reaches every posting call made on its behalf", p14, ctx)
     run_rule(led, "P13", "TABLE: the initial-domain mark and the comparison in is_initial_bound agree on which trail entries need no explanation", p13, ctx)
     run_rule(led, "P1", "every reason that is computed for use is logged as an inference (MUST-PASS)", p1, ctx)
